@@ -29,13 +29,12 @@ impl Parser for Go {
                 return Vec::new();
             };
 
-            actual.start += terminator;
-
-            let Some(new_source) = actual.try_get_content(actual_source) else {
+            // `terminator` indexes `source`, as does `actual`: skip the directive line.
+            if terminator >= actual.end {
                 return Vec::new();
-            };
-
-            actual_source = new_source
+            }
+            actual.start = terminator;
+            actual_source = actual.get_content(source);
         }
 
         let mut new_tokens = self.inner.parse(actual_source);
